@@ -479,6 +479,26 @@ pub struct DhtResponseWrapper {
     pub response: DhtResponse,
 }
 
+/// Removes an entry of the pending-request table when dropped.
+struct PendingDhtRequestGuard {
+    pending: Arc<RwLock<LruCache<String, oneshot::Sender<DhtResponse>>>>,
+    request_id: String,
+}
+
+impl Drop for PendingDhtRequestGuard {
+    fn drop(&mut self) {
+        if let Ok(mut pending) = self.pending.try_write() {
+            pending.pop(&self.request_id);
+        } else if let Ok(handle) = tokio::runtime::Handle::try_current() {
+            let pending = Arc::clone(&self.pending);
+            let request_id = std::mem::take(&mut self.request_id);
+            handle.spawn(async move {
+                pending.write().await.pop(&request_id);
+            });
+        }
+    }
+}
+
 /// Main DHT Core Engine
 pub struct DhtCoreEngine {
     node_id: NodeId,
@@ -997,6 +1017,11 @@ impl DhtCoreEngine {
             }
             pending.put(request_id.clone(), tx);
         }
+        // Removes the entry on every exit path, including a caller that drops this future
+        let _pending_guard = PendingDhtRequestGuard {
+            pending: Arc::clone(&self.pending_requests),
+            request_id: request_id.clone(),
+        };
 
         // Create the DHT message
         let message = DhtMessage::Retrieve {
